@@ -87,4 +87,24 @@ def run(ck):
         dens = rng.choice([.05, .1, .2, .3, .5, .7, .9])
         edges = [(s, p) for s in range(nsh) for p in range(nsv) if rng.random() < dens]
         check(edges, nsh, nsv, "random")
+    # directed: relations whose maximum matching needs LONG augmenting paths (seeded/C08-10: a search depth cut-off):
+    # path graphs share-server-share-... with 2..12 shares under random relabelings and insertion orders, bare and
+    # with a few extra edges; every vertex is matched in the maximum matching, so the last augmenting path re-routes
+    # the whole chain when the greedy choices go the wrong way.
+    for rep in range(40 if ck.tier == "quick" else 400):
+        for nsh in range(2, 13):
+            if ck.out_of_time():
+                break
+            shares = list(range(nsh)); servers = list(range(nsh))
+            rng.shuffle(shares); rng.shuffle(servers)
+            edges = set()
+            for i in range(nsh):
+                edges.add((shares[i], servers[i]))
+                if i + 1 < nsh:
+                    edges.add((shares[i + 1], servers[i]))
+            for _ in range(rng.choice([0, 0, 1, 2])):
+                edges.add((rng.randrange(nsh), rng.randrange(nsh)))
+            ck.hit("long-augmenting-chain")
+            check(sorted(edges), nsh, nsh, "chain")
+    ck.require_reach("long-augmenting-chain")
     ck.require_monitor("matching-compare")
